@@ -13,11 +13,11 @@ TYPES = ['int', 'integer', 'varchar', 'varchar(255)', 'numeric(10,2)', 'numeric(
          'decimal(1,2)', '"my type"', 'character varying']   # the last two only in quoted form
 NOTES = ['a note', 'x', 'two words', 'line one\nline two', 'first\n\nthird after empty', 'é 中 💸', "it's", 'say "hi"',
          'tick ` tock', 'hash # not comment', 'slash // not comment', 'a {brace}', 'indented\n  more\n    most',
-         'ends with quote\'', "'''triple inside'''", 'back\\\\slash']
+         'ends with quote\'', "'''triple inside'''", 'back\\\\slash', "two lines\nends with quote'", "four '''' quotes\nsecond line"]
 ACTIONS = ['cascade', 'restrict', 'set null', 'set default', 'no action']
 INDEX_TYPES = ['btree', 'hash', 'gin', 'gist', 'brin', 'spgist']
 COLORS = ['#fff', '#AbCdEf', '#123456', '#000']
-COMMENTS = ['a comment', 'c', 'two words here', 'with # and \' and "', 'second line']
+COMMENTS = ['a comment', 'c', 'two words here', 'with # and \' and "', 'second line', 'stars **', '*', 'x */ y'.replace(' */', '')]
 
 
 class safe_pools:
@@ -33,6 +33,16 @@ class safe_pools:
     def __exit__(self, *a):
         global NAMES, COLS, NOTES, COMMENTS
         NAMES, COLS, NOTES, COMMENTS = self.saved
+
+
+def esc_triple(t):
+    """proper escapes for a '''-quoted literal: backslashes doubled, every quote of a run of three or more
+    escaped, a final quote escaped"""
+    body = t.replace('\\', '\\\\')
+    body = re.sub(r"'{3,}", lambda m: "\\'" * len(m.group(0)), body)
+    if body.endswith("'") and not body.endswith("\\'"):
+        body = body[:-1] + "\\'"
+    return body
 
 
 class Style:
@@ -83,17 +93,12 @@ class Style:
             return "'" + t.replace('\\', '\\\\').replace("'", "\\'") + "'"
         if q == '"':
             return '"' + t.replace('\\', '\\\\').replace('"', '\\"') + '"'
-        body = t.replace('\\', '\\\\').replace("'''", "\\'''")
-        if body.endswith("'"):
-            body = body[:-1] + "\\'"
-        return "'''" + body + "'''"
+        return "'''" + esc_triple(t) + "'''"
 
     def note_string(self, t, indent):
         """a note; multi-line ones may be written as an indented block (normalisation must undo it)"""
         if '\n' in t and self.coin(0.6):
-            body = t.replace('\\', '\\\\').replace("'''", "\\'''")
-            if body.endswith("'"):
-                body = body[:-1] + "\\'"
+            body = esc_triple(t)
             pad = ' ' * indent
             lines = body.split('\n')
             return "'''\n" + '\n'.join((pad + l) if l else l for l in lines) + '\n' + pad[:-2] + "'''"
@@ -242,6 +247,8 @@ def add_comments(r, A):
 def comment_block(st, text, indent=''):
     """a comment written above an element"""
     if st.ccoin(0.3) and '*/' not in text and '\n' not in text:
+        if st.ccoin(0.4) and not text.endswith('/'):
+            return indent + '/*' + text + '*/\n', text          # banner style, no blanks inside
         return indent + '/* ' + text + ' */\n', text + ' '
     return ''.join(indent + '// ' + l + '\n' for l in text.split('\n')), text
 
